@@ -48,6 +48,42 @@ class _Canon(ast.NodeTransformer):
         return node
 
 
+class _NoOpElse(ast.NodeTransformer):
+    """if c: A else: pass / ...   ->   if c: A"""
+
+    def visit_If(self, node):
+        self.generic_visit(node)
+        if node.orelse and all(isinstance(s, ast.Pass) or (isinstance(s, ast.Expr) and isinstance(s.value, ast.Constant) and s.value.value is Ellipsis) for s in node.orelse):
+            node.orelse = []
+        return node
+
+
+class _AugForm(ast.NodeTransformer):
+    """Cython sources only (typed C scalars / memoryview elements, where both spellings mean the same):
+    t[i] = t[i] + e -> t[i] += e everywhere;  x = x + e -> x += e for plain names in functions WITHOUT a prange (inside a prange the two
+    spellings differ: `+=` declares a reduction, `x = x + e` a private variable)."""
+
+    OPS = (ast.Add, ast.Sub, ast.Mult)
+
+    def __init__(self):
+        self.in_prange_fn = False
+
+    def visit_FunctionDef(self, node):
+        saved = self.in_prange_fn
+        self.in_prange_fn = any(isinstance(n, ast.Call) and getattr(n.func, "id", "") == "prange" for n in ast.walk(node))
+        self.generic_visit(node)
+        self.in_prange_fn = saved
+        return node
+
+    def visit_Assign(self, node):
+        if len(node.targets) == 1 and isinstance(node.value, ast.BinOp) and isinstance(node.value.op, self.OPS):
+            t = node.targets[0]
+            if ast.unparse(node.value.left) == ast.unparse(t) and (isinstance(t, ast.Subscript) or (isinstance(t, ast.Name) and not self.in_prange_fn)):
+                tt = copy.deepcopy(t)
+                return ast.copy_location(ast.AugAssign(tt, node.value.op, node.value.right), node)
+        return node
+
+
 class _DictUpdate(ast.NodeTransformer):
     """d.update({"k": v, ...}) / d.update(k=v, ...)  ->  d["k"] = v ; ...   for a local d that is known to be a dict in this function
     (the **kwargs parameter, or a name assigned from a dict display / dict(...) call); literal string keys; same order."""
@@ -178,9 +214,12 @@ class _Orient(ast.NodeTransformer):
         return node
 
 
-def canon_tree(tree):
+def canon_tree(tree, cython=False):
     from .guided import NNF
 
+    _NoOpElse().visit(tree)
+    if cython:
+        _AugForm().visit(tree)
     _Canon().visit(tree)
     _DictUpdate().visit(tree)
     NNF().visit(tree)
@@ -298,7 +337,10 @@ def _invalidates(node, rn, ra, pure):
             return True
         if isinstance(n, (ast.Attribute, ast.Subscript)) and isinstance(n.ctx, (ast.Store, ast.Del)):
             base = ast.unparse(n.value)
-            if any(a == ast.unparse(n) or a.startswith(base + ".") or a == base or base.startswith(a) for a in ra) or (isinstance(n.value, ast.Name) and n.value.id in rn):
+            meta = ("shape", "size", "ndim", "dtype")  # an element store x[i] = v does not change x.shape / x.size ...
+            ra_eff = [a for a in ra if not (isinstance(n, ast.Subscript) and a.split(".")[-1] in meta and a.rsplit(".", 1)[0] == base)]
+            rn_eff = rn if not (isinstance(n, ast.Subscript) and all(a.split(".")[-1] in meta for a in ra if a.startswith(base + ".")) and any(a.startswith(base + ".") for a in ra)) else (rn - {base})
+            if any(a == ast.unparse(n) or a.startswith(base + ".") or a == base or base.startswith(a) for a in ra_eff) or (isinstance(n.value, ast.Name) and n.value.id in rn_eff):
                 return True
         if isinstance(n, ast.Call):
             fn = n.func
@@ -855,7 +897,7 @@ def restore_call_shapes(fn, frozen_calls, sigs):
 def normalise(rel, tree, frozen, pure=frozenset(), sigs=None):
     """In-place normalisation of one module's AST.  Returns a dict describing what was done."""
     info = {"inlined_locals": [], "inlined_helpers": False}
-    canon_tree(tree)
+    canon_tree(tree, cython=rel.endswith(".pyx"))
     if frozen is None or rel not in frozen:
         return info
     known = frozen[rel]["functions"]
